@@ -335,6 +335,51 @@ def _normalise(fn: ast.FunctionDef, tree: ast.Module, branches: bool = False) ->
 
 
 # ------------------------------------------------------------------------------------------ tokenizer
+def _inline_helper_calls(tree: ast.Module, node: ast.AST, depth: int = 0) -> ast.AST:
+    """`node` with every call of a module-level helper whose body is a single `return <expr>` (after the docstring; positional or
+    keyword arguments, defaults, no *args) replaced by that expression with the parameters substituted:
+    `ESCAPE_RE = _build_escape_re('?/')` reads like the expression the helper returns."""
+    import copy
+    helpers = {}
+    for st in tree.body:
+        if isinstance(st, ast.FunctionDef) and not st.decorator_list:
+            b = _body(st)
+            a = st.args
+            if len(b) == 1 and isinstance(b[0], ast.Return) and b[0].value is not None and not a.vararg and not a.kwarg and not a.posonlyargs and not a.kwonlyargs:
+                helpers[st.name] = st
+
+    class R(ast.NodeTransformer):
+        def visit_Call(self, n: ast.Call) -> ast.AST:   # noqa: N802
+            self.generic_visit(n)
+            if not (isinstance(n.func, ast.Name) and n.func.id in helpers) or depth > 4:
+                return n
+            fn = helpers[n.func.id]
+            params = [x.arg for x in fn.args.args]
+            if any(isinstance(x, ast.Starred) for x in n.args) or any(k.arg is None for k in n.keywords) or len(n.args) > len(params):
+                return n
+            bound: dict[str, ast.AST] = dict(zip(params, n.args))
+            for k in n.keywords:
+                if k.arg not in params or k.arg in bound:
+                    return n
+                bound[k.arg] = k.value   # type: ignore[index]
+            defaults = dict(zip(params[len(params) - len(fn.args.defaults):], fn.args.defaults))
+            for prm in params:
+                if prm not in bound:
+                    if prm not in defaults:
+                        return n
+                    bound[prm] = defaults[prm]
+            # the arguments must be usable several times: literals and names only
+            if not all(isinstance(v, (ast.Constant, ast.Name)) for v in bound.values()):
+                return n
+            expr = copy.deepcopy(_body(fn)[0].value)   # type: ignore[attr-defined]
+            if _stores(expr) & set(params):
+                return n
+            for prm, v in bound.items():
+                expr = _subst(expr, prm, v)
+            return _inline_helper_calls(tree, expr, depth + 1)
+    return R().visit(copy.deepcopy(node))
+
+
 def _tokenizer_tables() -> tuple[list[tuple[int, int]], list[int], dict]:
     tree = ast.parse(src_text('tokenizer.py'))
     esc = _module_assign(tree, 'ESCAPES')
@@ -351,7 +396,7 @@ def _tokenizer_tables() -> tuple[list[tuple[int, int]], list[int], dict]:
     if not _is(inv, "{char: f'\\\\{sym}' for sym, char in ESCAPES.items()}"):
         raise TranslateError('ESCAPES_INV is not the inverse of ESCAPES: ' + ast.unparse(inv))
     # ESCAPE_RE = re.compile('|'.join(re.escape(c) for c in ESCAPES_INV if c not in '?/'))
-    ere = _module_assign(tree, 'ESCAPE_RE')
+    ere = _inline_helper_calls(tree, _module_assign(tree, 'ESCAPE_RE'))
     excl = None
     for n in ast.walk(ere):
         if isinstance(n, ast.Compare) and len(n.ops) == 1 and isinstance(n.ops[0], ast.NotIn):
